@@ -20,6 +20,13 @@ import (
 // sp=1: Sent => exactly one PUBLISH DUP=1 same id; Recd => PUBREL, no PUBLISH; Done =>
 // nothing; old epoch => nothing. DUP on the first transmission of a Queued message and
 // the moment a Queued message is transmitted are unspecified (DESIGN §3.2).
+// Fault scenarios ("wf=1"): op failnext breaks a's link in the broker->client direction at
+// any quiescent point (the broker's next write to the connection fails, a sees nothing
+// more, the connection is dropped after that step). A PUBREC the broker processed
+// (OnPacketProcessed) but could not answer moves the message to Recd all the same: the
+// next CONNACK sp=1 must be followed by PUBREL and not by PUBLISH (MQTT-4.3.3-5/-6,
+// MQTT-4.4.0-1; keys c09:publish-resent-after-pubrec:pubrel-write-failed,
+// c09:pubrel-not-resent:pubrel-write-failed).
 
 func init() {
 	explore.RegisterBFS("c09", qosRun("c09"))
@@ -27,17 +34,23 @@ func init() {
 		c.Rep.Level = "model_checking"
 		c.Rep.Assumption("one client action at a time, broker run to quiescence under the deterministic default schedule (sequential histories)")
 		c.Rep.Assumption("state = reflective dump of *Server plus reference-model state and pool counters; histories merged only if byte-identical")
+		c.Rep.Assumption("write faults: one failing conn.Write per history (the first write after the fault point), the client sees nothing written after it and drops the connection at the end of that step; a message whose PUBLISH was lost that way counts as queued only")
 		c.Rep.Assumption("DUP on the first transmission of a message that was only queued, and the time a queued message is first transmitted, are unspecified for C09")
 		var sts []*explore.BFSStats
 		if c.Quick() {
 			sts = append(sts, explore.RunBFS(c, "c09", "v=5,rm=1,pubs=3,qos=12,conns=2,clean=1,take=1,closure=reconnect", 0, 30*time.Second))
 			sts = append(sts, explore.RunBFS(c, "c09", "v=5,rm=8,pubs=2,qos=12,conns=2,clean=1,take=1,closure=reconnect", 0, 25*time.Second))
 			sts = append(sts, explore.RunBFS(c, "c09", "v=4,pubs=2,qos=12,conns=2,clean=1,take=1,closure=reconnect", 0, 20*time.Second))
+			sts = append(sts, explore.RunBFS(c, "c09", "v=4,pubs=2,qos=12,conns=1,take=1,wf=1,closure=reconnect", 0, 20*time.Second))
+			sts = append(sts, explore.RunBFS(c, "c09", "v=5,rm=1,pubs=2,qos=2,conns=1,wf=1,closure=reconnect", 0, 15*time.Second))
 		} else {
 			sts = append(sts, explore.RunBFS(c, "c09", "v=5,rm=1,pubs=3,qos=12,conns=2,clean=1,take=1,closure=reconnect", 0, 4*time.Minute))
 			sts = append(sts, explore.RunBFS(c, "c09", "v=5,rm=8,pubs=3,qos=12,conns=2,clean=1,take=1,closure=reconnect", 0, 4*time.Minute))
 			sts = append(sts, explore.RunBFS(c, "c09", "v=4,pubs=3,qos=12,conns=2,clean=1,take=1,closure=reconnect", 0, 3*time.Minute))
+			sts = append(sts, explore.RunBFS(c, "c09", "v=4,pubs=2,qos=12,conns=2,clean=1,take=1,wf=1,closure=reconnect", 0, 2*time.Minute))
+			sts = append(sts, explore.RunBFS(c, "c09", "v=5,rm=1,pubs=3,qos=12,conns=2,take=1,wf=1,closure=reconnect", 0, 2*time.Minute))
+			sts = append(sts, explore.RunBFS(c, "c09", "v=5,rm=8,pubs=2,qos=2,conns=2,take=1,wf=2,closure=reconnect", 0, 2*time.Minute))
 		}
-		qosFold(c, sts, "redeliveries_expected", "pubrel_resends_expected", "takeovers", "deferred_releases")
+		qosFold(c, sts, "redeliveries_expected", "pubrel_resends_expected", "takeovers", "deferred_releases", "pubrel_write_faults")
 	})
 }
